@@ -7,7 +7,8 @@ use std::collections::{BTreeMap, BTreeSet};
 
 pub fn run(cx: &mut Ctx) {
     if let Some(facts) = units::load_facts(cx, "C09.U1") {
-        units::position_inventories(cx, "C09.U1", &facts, true);
+        units::position_comparisons(cx, "C09.U1", &facts);
+        units::dimension_discipline(cx, "C09.D1", &facts);
         funnel(cx, &facts);
     }
     units::error_offsets(cx, "C09.E2");
@@ -15,9 +16,12 @@ pub fn run(cx: &mut Ctx) {
     projections(cx);
     generated_parse_impls(cx);
     mode_names(cx);
-    crate::rules::lexer_rules::byte_accounting(cx, "C09.N1");
+    crate::rules::lexer_rules::byte_accounting_mode(cx, "C09.N1", crate::rules::lexer_rules::Acct::Relative);
     crate::rules::c10::filter_dominance_pub(cx, "C09.F3");
-    crate::rules::c01::soft_keywords_pub(cx, "C09.S1");
+    crate::rules::c01::soft_keywords_relabel_pub(cx, "C09.S1");
+    if let Ok(g) = crate::tables::load_grammar(&cx.repo) {
+        crate::rules::c01::start_markers_pub(cx, &g, "C09.F4");
+    }
 }
 
 fn offset_threading(cx: &mut Ctx) {
